@@ -349,7 +349,10 @@ func NewConnWithOpts(session Session, cfg *Config, opts ...Option) *Conn {
 	}
 	cc.msgID.Store(pkgMath.CastTo[uint32](cfg.GetMID() - 0xffff/2))
 	cc.blockWise = cfgOpts.createBlockWise(&cc)
-	limitParallelRequests := limitparallelrequests.New(cfg.LimitClientParallelRequests, cfg.LimitClientEndpointParallelRequests, cc.do, cc.doObserve)
+	// A request issued from a handler may have to wait for a free slot: the reader loop is busy with that handler,
+	// so let another loop process incoming messages (e.g. the responses that free the slots) meanwhile.
+	limitParallelRequests := limitparallelrequests.New(cfg.LimitClientParallelRequests, cfg.LimitClientEndpointParallelRequests, cc.do, cc.doObserve,
+		limitparallelrequests.WithBeforeWait(func() { cc.receivedMessageReader.TryToReplaceLoop() }))
 	cc.observationHandler = observation.NewHandler(&cc, cfg.Handler, limitParallelRequests.Do)
 	cc.Client = client.New(&cc, cc.observationHandler, cfg.GetToken, limitParallelRequests)
 	if cc.processReceivedMessage == nil {
@@ -482,6 +485,8 @@ func (cc *Conn) acquireOutstandingInteraction(ctx context.Context) error {
 		return fmt.Errorf("invalid NStart value %v", nStart)
 	}
 	n := math.MaxInt64 - int64(cc.Transmission().nStart.Load()) + 1
+	// the acknowledgements that free the slots have to be processed while a request issued from a handler waits here
+	cc.receivedMessageReader.TryToReplaceLoop()
 	err := cc.numOutstandingInteraction.Acquire(ctx, n)
 	if err != nil {
 		return err
